@@ -267,14 +267,7 @@ pub fn mika_eye_left(input: ParseString) -> ParseResult<MikaEyeLeft> {
       return Ok((rest, variant));
     }
   }
-  Err(nom::Err::Error(ParseError {
-    cause_range: SourceRange::default(),
-    remaining_input: input,
-    error_detail: ParseErrorDetail {
-      message: "Expected Mika left eye",
-      annotation_rngs: Vec::new(),
-    },
-  }))
+  Err(nom::Err::Error(ParseError::new(input, "Expected Mika left eye")))
 }
 
 pub fn mika_eye_right(input: ParseString) -> ParseResult<MikaEyeRight> {
@@ -283,14 +276,7 @@ pub fn mika_eye_right(input: ParseString) -> ParseResult<MikaEyeRight> {
       return Ok((rest, variant));
     }
   }
-  Err(nom::Err::Error(ParseError {
-    cause_range: SourceRange::default(),
-    remaining_input: input,
-    error_detail: ParseErrorDetail {
-      message: "Expected Mika right eye",
-      annotation_rngs: Vec::new(),
-    },
-  }))
+  Err(nom::Err::Error(ParseError::new(input, "Expected Mika right eye")))
 }
 
 // mika-nose := "⦿" | "◯" | "⊕" | "∘" | "⦾" | "⊖" | "⦵" | "⊗" | "⏺" | "⍜" ;
@@ -300,14 +286,7 @@ pub fn mika_nose(input: ParseString) -> ParseResult<MikaNose> {
       return Ok((rest, variant));
     }
   }
-  Err(nom::Err::Error(ParseError {
-    cause_range: SourceRange::default(),
-    remaining_input: input,
-    error_detail: ParseErrorDetail {
-      message: "Expected Mika nose",
-      annotation_rngs: Vec::new(),
-    },
-  }))
+  Err(nom::Err::Error(ParseError::new(input, "Expected Mika nose")))
 }
 
 // mika-expression-inner := eye-left, nose, eye-right;
@@ -326,14 +305,7 @@ pub fn mika_expression_inner(input: ParseString) -> ParseResult<MikaExpression> 
       let (input, _) = tag(right.symbol())(input)?;
       Ok((input, expr))
     }
-    None => Err(nom::Err::Error(ParseError {
-      cause_range: SourceRange::default(),
-      remaining_input: input,
-      error_detail: ParseErrorDetail {
-        message: "Unrecognized Mika expression",
-        annotation_rngs: Vec::new(),
-      },
-    })),
+    None => Err(nom::Err::Error(ParseError::new(input, "Unrecognized Mika expression"))),
   }
 }
 
